@@ -7,3 +7,7 @@ package kv
 import dbsm "github.com/lni/dragonboat/v4/statemachine"
 
 func verifUpdate(uint64, uint64, []dbsm.Entry) {}
+
+func verifUpdated(*LFSM, []dbsm.Entry) {}
+
+func verifRecovered(*LFSM) {}
